@@ -12,23 +12,45 @@ func vpH_C06_T_vacancy() {
 	kind := vpChoose("vacancy", 2)
 	s := vpFollowingInstance(H, nil)
 	s.st.noEvents = true
+	lostCreate := vpChoose("lost-create", 2) == 1
+	arm := func() {
+		if lostCreate {
+			// the first Create after the vacancy is swallowed by a store hiccup (answered with an error only after
+			// the client's 5s request time-out); the store is otherwise healthy
+			s.kv.faults = []int{vpFaultHang}
+			s.kv.faultLeft = 1
+			s.kv.faultOps = "create"
+			s.kv.faultForce = true
+			s.kv.hangIsTimeout = true
+		}
+	}
 	tv := int64(-1)
 	if kind == 0 {
 		go func() {
 			vpDelay("vacate", 0, 900*time.Millisecond)
 			s.st.write("env:other", "delete", nil, true, 0)
 			tv = vpNow()
+			arm()
 		}()
 	} else {
 		// crash: the record simply expires TTL after its last write (t=0)
 		s.st.ttl = 1200 * time.Millisecond
 		tv = int64(1200 * time.Millisecond)
+		go func() {
+			time.Sleep(1200 * time.Millisecond)
+			arm()
+		}()
 	}
-	time.Sleep(900*time.Millisecond + 700*time.Millisecond)
+	time.Sleep(900*time.Millisecond + 1200*time.Millisecond)
 	vpQuiesce()
 	vpCover("C06.vacancy")
 	vpAssert("C06.filled-in-bound", s.cb.promotes >= 1 && s.e.IsLeader())
-	vpAssert("C06.filled-in-bound:time", vpImplies(s.cb.promotes >= 1, s.cb.promoteAt <= tv+int64(600*time.Millisecond)))
+	if lostCreate {
+		// a swallowed request costs at most one more periodic check
+		vpAssert("C06.filled-in-bound:time", vpImplies(s.cb.promotes >= 1, s.cb.promoteAt <= tv+int64(1100*time.Millisecond)))
+	} else {
+		vpAssert("C06.filled-in-bound:time", vpImplies(s.cb.promotes >= 1, s.cb.promoteAt <= tv+int64(600*time.Millisecond)))
+	}
 }
 
 // vpH_C06_T_no_give_up: transient failures before the store recovers: Watch() fails (k times), or the watch
